@@ -24,7 +24,7 @@ COMPONENTS = {'real': ['kawin.precipitation.* (full KWN model, PSD recording)', 
 
 def plan(tier):
     if tier == 'quick':
-        return dict(runs=360, batch=4, hard_timeout=600, soft_timeout=150)
+        return dict(runs=540, batch=4, hard_timeout=600, soft_timeout=150)
     return dict(runs=20000, batch=8, hard_timeout=1800, soft_timeout=300)
 
 
